@@ -48,6 +48,21 @@ type Site struct {
 	Note string `json:"note"`
 }
 
+// forProperty drops from the uncontrolled list what the property's kernel does control:
+// go statements of the code under test are simulated tasks under the bubble kernel.
+func (e *Env) forProperty(prop string) {
+	if prop == "C12" {
+		return
+	}
+	kept := []string{}
+	for _, u := range e.Uncontrol {
+		if !strings.HasPrefix(u, "go statement (native under the race kernel)") {
+			kept = append(kept, u)
+		}
+	}
+	e.Uncontrol = kept
+}
+
 // siteOrdinal is the index of a site among the sites of the same kind in the same function.
 func (e *Env) siteOrdinal(s Site) int {
 	n := 0
@@ -198,7 +213,7 @@ func (e *Env) RunOpt(p *plan.Plan, wallCap time.Duration, eventLog string, gomax
 		return pr
 	}
 	bin := e.Bin
-	if p.Kernel == "race" && !(p.Property == "REF" && e.Bin != "") {
+	if p.Kernel == "race" && !((p.Property == "REF" || p.Plain) && e.Bin != "") {
 		// solo reference runs of race-kernel plans need no race detection:
 		// the plain binary runs the same kernel several times faster
 		bin = e.BinRace
